@@ -2,7 +2,7 @@
 import io, itertools
 from ..engine import UnitResult, jkey, watchdog, Hang
 from .. import ref as R, terms as T, gen as G, rt
-from .c03 import chunks
+from .c03 import chunks, srepr
 
 INFO = {
     "rule": "(a) every term of tiers T1..T4 (non-strict, incl. unsized ones; T5 thorough): sizeof() must return a non-negative int or "
@@ -33,6 +33,9 @@ def units(tier):
         us.append({"kind": "terms", "terms": [[t, tn] for t, tn in ch]})
     for i in range(len(slots())):
         us.append({"kind": "slot", "index": i})
+    from .. import scale
+    for n in scale.sizes(tier):
+        us.append({"kind": "scale", "size": n})
     return us
 
 
@@ -91,7 +94,10 @@ def measure(t, d, n, kw, tsig, r, values=None):
     seen = set()
     tried = 0
     for v in cands:
-        key = repr(v)
+        try:
+            key = repr(v)
+        except ValueError:          # an integer beyond the int->str digit limit
+            key = "id%d" % id(v)
         if key in seen:
             continue
         seen.add(key)
@@ -102,15 +108,15 @@ def measure(t, d, n, kw, tsig, r, values=None):
                 with watchdog(3):
                     d.build_stream(v, s, **kw)
             except Hang:
-                bad("build-hang", {"value": repr(v)}, "build did not terminate")
+                bad("build-hang", {"value": srepr(v)}, "build did not terminate")
                 continue
             except Exception:
                 continue            # not buildable: nothing to measure
             adv = s.tell() - start
             tried += 1
             if adv != n:
-                bad("build-advance-differs", {"value": repr(v), "start": start},
-                    "%s.sizeof(%s) = %d but build(%r) at offset %d advanced the stream by %d" % (T.show(t), kw, n, v, start, adv))
+                bad("build-advance-differs", {"value": srepr(v), "start": start},
+                    "%s.sizeof(%s) = %d but build(%s) at offset %d advanced the stream by %d" % (T.show(t), kw, n, srepr(v), start, adv))
                 continue
             built = s.getvalue()[start:start + adv]
             for trail in (TRAILERS if not greedy else [b""]):
@@ -120,18 +126,18 @@ def measure(t, d, n, kw, tsig, r, values=None):
                     with watchdog(3):
                         d.parse_stream(s2, **kw)
                 except Hang:
-                    bad("parse-hang", {"value": repr(v)}, "parse did not terminate")
+                    bad("parse-hang", {"value": srepr(v)}, "parse did not terminate")
                     continue
                 except Exception as e:
                     # "parsing those bytes ... advances the input stream by exactly n": the construct's own n-byte encoding must parse;
                     # judged for the bare encoding only (a trailer can legitimately change the outcome, e.g. Terminated)
                     if trail == b"" and (start == 0 or not G.attrs(t).seeks) and admissible_encoding(t, v, built, kw):
-                        bad("parse-rejects-own-encoding", {"value": repr(v), "start": start},
-                            "%s.sizeof(%s) = %d, build(%r) wrote %s, but parsing exactly those bytes raised %s" % (T.show(t), kw, n, v, built.hex(), type(e).__name__))
+                        bad("parse-rejects-own-encoding", {"value": srepr(v), "start": start},
+                            "%s.sizeof(%s) = %d, build(%s) wrote %s, but parsing exactly those bytes raised %s" % (T.show(t), kw, n, srepr(v), built.hex()[:200], type(e).__name__))
                     continue
                 adv2 = s2.tell() - start
                 if adv2 != n:
-                    bad("parse-advance-differs", {"value": repr(v), "start": start, "trail": trail},
+                    bad("parse-advance-differs", {"value": srepr(v), "start": start, "trail": trail},
                         "%s.sizeof(%s) = %d but parsing its own %d-byte encoding %s followed by %s advanced the stream by %d"
                         % (T.show(t), kw, n, adv, built.hex(), trail.hex(), adv2))
     if r is not None:
@@ -348,6 +354,19 @@ _TIER = ["quick"]
 def run_unit(unit, tier):
     r = UnitResult()
     _TIER[0] = tier
+    if unit["kind"] == "scale":
+        # the size axis: where sizeof answers for a large construct, build and parse of a large value advance by exactly that
+        from .c03 import scale_cases
+        n = unit["size"]
+        _TIER[0] = "quick"
+        for t, v in scale_cases(n):
+            d = T.mk(t)
+            r.states += 1
+            for x in judge_sizeof(t, d, {}, "scale:" + T.sig_of(t), r, [v]):
+                x["case"] = {"scale": [T.show(t)[:60], n]}
+                r.violation(x["sig"], x["case"], x["detail"][:500])
+        r.sample({"scale_size": n})
+        return r
     if unit["kind"] == "terms":
         run_terms(unit, tier, r)
     else:
